@@ -102,6 +102,19 @@ CLAIMED.update({
             "individuals in the phased case is allowed (masked out by the code) and covered by the "
             "comparison. Variational part at the data-extraction layer as for C07.",
             TECH + "; two-run relational (product) encoding with access recording", "4/C08"),
+    "C18": ("For all real cavity parameters, counts >= 0, spans > 0 and fixed ages > 0 (scalar kernels, no "
+            "loops) z3 proves: (1) each of the 14 projection wrappers returns the documented skip value or a "
+            "proper gamma with positive mean and variance and phases in [0,1]; (2) the cases with elementary "
+            "answers (child at time zero, twin, uniform mutation on an edge / block, mutation between a "
+            "fixed and a free end) equal the answer written from the definition, with mean-between-the-ends "
+            "and variance > 0; (3) moments, unphased_moments, leafward_moments, rootward_moments, "
+            "sideways_moments equal ratios of normalising integrals derived independently in the harness "
+            "(validated once against quadrature), with log 2F1 / 1F1 / U uninterpreted.",
+            "Narrowed: agreement of the Laplace approximations with numerical integration 'to within a few "
+            "percent' and support facts needing the value of a transcendental ratio are not decidable by an "
+            "SMT solver; they are used only as the replay oracle (quadrature on a fixed grid). The "
+            "mutation_moments / mutation_unphased / mutation_sideways algebra is not re-derived.",
+            TECH + "; differential against an in-harness reference", "4/C18"),
     "C19": ("For every positive real x (symbolic, piecewise over the axis) z3 proves the executed arithmetic of "
             "_digamma/_trigamma equal to the exact recurrence plus the Stirling series with exact Bernoulli "
             "coefficients (to 1e-16) and bounds the first omitted term where the series is used (1e-14 / 1e-11 "
